@@ -4,6 +4,7 @@ import SpecterModel.C05.Drv
 import SpecterModel.C06.Drv
 import SpecterModel.C08.Drv
 import SpecterModel.C09.Drv
+import SpecterModel.C10.Drv
 import SpecterModel.C11.Drv
 import SpecterModel.C12.Drv
 import SpecterModel.C13.Drv
@@ -54,6 +55,7 @@ def main (args : List String) : IO UInt32 := do
   | ["C06"] => do Specter.C06.main; return 0
   | ["C08"] => do Specter.C08.main; return 0
   | ["C09"] => do Specter.C09.main; return 0
+  | ["C10"] => do Specter.C10.main; return 0
   | ["C11"] => do Specter.C11.main; return 0
   | ["C12"] => do Specter.C12.main; return 0
   | ["C13"] => do Specter.C13.main; return 0
